@@ -350,6 +350,39 @@ pub fn run(tier: Tier) -> i32 {
             items.push((format!("long:{}:{}", label, n), t, o));
         }
     }
+    // containers without members next to packable and optimal ones, in every order; and the same files with multi-byte
+    // characters in a leading comment (byte offsets and character offsets then differ up to the end of the file), the
+    // packable container being the last item of the file
+    {
+        let parts: Vec<(&str, &str)> = vec![
+            ("empty-struct", "struct E0 { }"),
+            ("empty-contract", "contract E1 { }"),
+            ("packable-struct", "struct P0 { uint128 a ; uint256 b ; uint128 c ; }"),
+            ("packable-contract", "contract P1 { uint128 a ; uint256 b ; uint128 c ; }"),
+            ("optimal-contract", "contract O1 { uint128 a ; uint128 b ; uint256 c ; }"),
+            ("contract-with-empty-struct", "contract N1 { struct In { } uint8 a ; uint256 b ; uint8 c ; }"),
+            ("interface-fn-only", "interface I1 { function f ( ) external ; }"),
+        ];
+        for (na, a) in &parts {
+            for (nb, b) in &parts {
+                for (nc, c) in &parts {
+                    if na == nb || nb == nc || na == nc {
+                        continue;
+                    }
+                    for head in ["", "/* \u{a9} \u{fc}n\u{ef}c\u{f6}d\u{e9} \u{65e5}\u{672c}\u{8a9e} \u{1f512}\u{1f512}\u{1f512}\u{1f512} */ "] {
+                        let text = format!("pragma solidity 0.8.19 ; {} {} {}", a, b, c);
+                        let toks: Vec<String> = text.split(' ').filter(|x| !x.is_empty()).map(|x| x.to_string()).collect();
+                        let (t, o) = render_l1(&toks);
+                        // no line feed after the last token: the last item ends where the file ends
+                        let t = t.trim_end_matches('\n').to_string();
+                        let t2 = format!("{}{}", head, t);
+                        let o2: Vec<usize> = o.iter().map(|x| x + head.len()).collect();
+                        items.push((format!("order:{}:{}:{}:{}", na, nb, nc, if head.is_empty() { "ascii" } else { "multibyte-header" }), t2, o2));
+                    }
+                }
+            }
+        }
+    }
     let sw = refdet::sweep_texts(&items, &ds, Mode::Semantic);
     require_must(&mut run, &sw, &["pack_storage_variables", "pack_struct_variables"], "size-sequences");
     let sample = json!({"label": items[items.len() / 2].0, "text": items[items.len() / 2].1});
